@@ -76,6 +76,13 @@ CLAIMED.update({
             "DESIGN.md §4 C08"),
 })
 
+CLAIMED.update({
+    "C09": ("table agreement between parse side (fields fed by unquote, computed by taint over the generated grammar actions) and format side (provenance with quoteString as sanitizer); escape-set extraction from quoteString vs the lexer's string regexp constant",
+            "Structural necessary conditions: every AST string the parser obtains with unquote reaches formatted text only through quoteString (found raw emission of stage src and include paths, fixed); quoteString copies unescaped only bytes >= 0x20 other than quote/backslash; every escape it writes is lexed by the string rule and decoded by unquoteBytes.",
+            "Not decided: idempotence, comment placement, number printing (%g, formatGB), topological order, include-expanded rendering.",
+            "DESIGN.md §4 C09"),
+})
+
 NOT_APPLICABLE = {
     "C01": "Equality of delivered argument values with the denotation of binding expressions quantifies over run-time JSON values and fork matching for all programs; no clause is a fact about the shape of the code, so any static rule would be a proxy, not a necessary condition.",
     "C13": "Materialisation of files under outs/ and the rewritten _outs are file-system effects and hand-assembled JSON values; the only structural candidate (bracket pairing of the JSON writers) does not imply validity and is exercised by the existing golden tests.",
@@ -116,7 +123,7 @@ def main():
         "hooks": {
             "guard": "verif",
             "enable": "no hooks: static analysis reads /repo's working tree as it is (go/packages over /repo on every run)",
-            "baseline_off_cmd": "cd /repo && for m in . test; do (cd $m && %s go test -vet=off -count=1 ./...) || exit 1; done" % ENV,
+            "baseline_off_cmd": "cd /repo && %s go test -vet=off -count=1 ./..." % ENV,
             "source_commits": hooks_commits,
             "add_only": True,
         },
